@@ -402,6 +402,13 @@ func mkBin(tok token.Token, x, y *Term, typ types.Type) *Term {
 }
 
 func foldBin(op Op, x, y *Term, typ types.Type) *Term {
+	if (op == OpDiv || op == OpRem) && x.IsConst() && !y.IsConst() && kindOf(typ).isInt() {
+		// 0/y = 0%y = 0 on every path that continues past the operation (y != 0 there; the
+		// division itself is recorded as an obligation where it occurs)
+		if a, ok := bigOf(x.C); ok && a.Sign() == 0 {
+			return mkInt(0, typ)
+		}
+	}
 	if !x.IsConst() || !y.IsConst() {
 		return nil
 	}
